@@ -27,7 +27,7 @@ HunkShapes == {
    [os |-> 7, ns |-> 7, old |-> <<>>, new |-> <<>>, pre |-> 0, suf |-> 0] }                       \* empty hunk -7,0 +7,0
 HunkLists == {<<>>} \cup {<<h>> : h \in HunkShapes} \cup {<<h1, h2>> : h1 \in {x \in HunkShapes : x.pre = 1}, h2 \in {x \in HunkShapes : x.os >= 4}}
 
-Metas == {m \in [old : Names, new : Names, ren : BOOLEAN, operm : {NONE, "100644", "644"}, nperm : {NONE, "100755", "40000"}, hash : BOOLEAN] :
+Metas == {m \in [old : Names, new : Names, ren : BOOLEAN, operm : {NONE, "100644", "644"}, nperm : {NONE, "100755", "40000", "100644"}, hash : BOOLEAN] :   \* "100644": a new mode equal to the old one (git never writes it, the parser takes it)
             /\ ~(m.old = NULL /\ m.new = NULL)
             /\ (m.ren => m.old # NULL /\ m.new # NULL /\ m.old # m.new) }
 
